@@ -354,6 +354,8 @@ def check(ctx):
             for t in tg:
                 if isinstance(t, ast.Subscript) and is_self_attr(t.value, '_event_trace') and isinstance(a, ast.Assign):
                     key_ok = NE.norm(t.slice, env_).is_({'self._event_index': 1})
+                    # `trace[len(trace)] = record`: the table's own size is the running index, and storing under it advances it by one
+                    key_len = ast.unparse(subst(t.slice, env_)) == 'len(self._event_trace)'
                     v = subst(a.value, env_)
                     # the record is a dict built from the event taken from the head of the queue
                     mentions_head = any(isinstance(x, ast.Name) and an_.ev(x, before, n.frame) == 'head' for x in ast.walk(a.value)) or \
@@ -372,7 +374,23 @@ def check(ctx):
                         um = _unique_methods(P).get(a.value.func.attr)
                         ret_ = simple_return(um[1]) if um else None
                         val_ok = isinstance(ret_, ast.Dict) and any(isinstance(x, ast.Name) and x.id == 'self' for x in ast.walk(ret_))
-                    fl = 'stored' if key_ok and val_ok else 'stored-wrong'
+                    if not val_ok:
+                        # ... or by a static / class-level helper of the environment given the event (`Environment._make_trace_record(self.now, event)`)
+                        cv = a.value
+                        if isinstance(cv, ast.Name):
+                            r_ = env_.resolve(cv.id)
+                            cv = r_[0] if r_ is not None else cv
+                        if isinstance(cv, ast.Call) and isinstance(cv.func, ast.Attribute) and ast.unparse(cv.func.value) in ('Environment', 'self', 'type(self)') \
+                                and cv.func.attr in Env.methods and any(isinstance(x, ast.Name) and an_.ev(x, before, n.frame) == 'head' for arg in cv.args for x in ast.walk(arg)):
+                            from ..norm import simple_return
+                            ret_ = simple_return(Env.methods[cv.func.attr])
+                            hp = [p_.arg for p_ in Env.methods[cv.func.attr].args.args]
+                            val_ok = isinstance(ret_, ast.Dict) and any(isinstance(x, ast.Name) and x.id in hp for x in ast.walk(ret_))
+                    fl = 'stored' if (key_ok or key_len) and val_ok else 'stored-wrong'
+                    if key_len and val_ok and 'advanced' not in st.flags and 'executed' not in st.flags:
+                        st = st.with_flag('advanced')
+                        st = st.with_flag('stored-twice' if 'stored' in st.flags else 'stored')
+                        continue
                     if 'advanced' in st.flags:
                         fl = 'stored-after-advance'
                     if 'executed' in st.flags:
@@ -464,6 +482,8 @@ def check(ctx):
         o.witness('dump')
     # the trace table and its running index exist before the first traced step: both are given their initial value where the environment is (re)set
     for a_, init_ok in (('_event_trace', lambda v: isinstance(v, ast.Dict) and not v.keys), ('_event_index', lambda v: isinstance(v, ast.Constant) and v.value == 0)):
+        if a_ == '_event_index' and not inv.attr_uses(P, '_event_index'):
+            continue          # no separate counter: the size of the table is the index
         o.count()
         ini = [s_ for s_ in inv.attr_stores(P, a_) if s_.cls is Env and s_.func.name in inv.covered(P, {'_reset', '__init__'}) and isinstance(s_.stmt, ast.Assign) and init_ok(s_.stmt.value)]
         if not ini:
